@@ -1,4 +1,4 @@
 CONSTANTS Shape = "small" MaxEdits = 0 Budget = 1 LinkRepaired = TRUE
 SPECIFICATION Spec
-INVARIANTS InvC09 InvShape InvMissing InvC08Outside InvC03
+INVARIANTS InvC18 InvC09 InvShape InvMissing InvC08Outside InvC03
 CHECK_DEADLOCK TRUE
